@@ -184,7 +184,10 @@ def create_checks(cf, trace, sid):
             return
         if not trace["steps"]:
             return
-        first = trace["steps"][0].get("ev_pre") or []
+        first = list(trace["steps"][0].get("ev_pre") or [])
+        for reg in trace.get("registrations") or []:
+            # trackers created while the simulation was running, as they were just after their creation
+            first += (reg.get("post") or [])[len(first):]
         for i, tr in enumerate(first):
             if tr["kind"] != "rebuild" or i >= len(evs):
                 continue
